@@ -11,6 +11,11 @@ ID = 'C15'
 GEN_SECTIONS = ['GenDedup', 'FP_dedup', 'FP_event_lib', 'FP_get_block']
 COQ_TARGETS = ['Props/C15.vo']
 LEVEL = 'proof'
+MANIFEST = {
+    'text': 'Theorems (Coq, Props/C15.v): for EventLibrary.remove_duplicates over ANY key type and ANY rounding function: the id mapping is total on the old ids and points to existing new ids; the new library holds exactly the rounded old data at the mapped id; two entries are merged IF AND ONLY IF their rounded data are equal; new ids are dense 1..n in ascending order of the first member of each class, whose type tag is kept; the result is a well-formed library; for an idempotent rounding a second pass returns the identical library and the identity mapping. Rounding: round-to-n-decimals is idempotent with error <= 0.5*10^-n; the significant-digit rounding has relative error <= 5*10^-dig (of |d|+1e-12). The digit tuples are re-read from sequence.py on every run and the theorems about columns are stated over them. Sequence level (dedup_core): for a store with valid references the result exists, its references are valid, the block table keeps keys, order and durations, and every block decodes to the rounded rows / rounded shape payloads of the original block; copy leaves the original state unchanged; in place = copy. The RF-delay exception (6 significant digits instead of 1 us for delays >= 1 s) is a kernel-checked witness. Sequences full of near-duplicates around every column\'s rounding threshold are run through the implementation and the extracted model (libraries, id maps and block table compared exactly).',
+    'note': 'Trusted: Coq kernel; translator patterns + source fingerprints of Sequence.remove_duplicates / EventLibrary.remove_duplicates / get_block; extraction + driver; numeric extraction inside register_* taken from the implementation. Partial: idempotence of the significant-digit rounding is proved under the hypothesis that the exponent found for the rounded value does not exceed the one of the input (the carry-to-a-power-of-ten case is argued on paper in DESIGN.md C02 and sampled). Hypotheses of the sequence-level theorem: ids are unique, positive dict keys, no empty type tag stored, rounding keeps the shape-id columns of rows whose shape ids are integers (proved for the generated tuples), merged rows carry equal type tags (necessary: witness with two RF rows of different use). Known finding: RF delay >= 1 s rounded to 6 significant digits.',
+    'technique': 'Rocq/Coq proof (loop invariant over the sorted id list, canonical-form argument for idempotence, exact rational rounding lemmas) + model/implementation correspondence on near-duplicate sequences',
+}
 BUDGET = {'quick': 200, 'thorough': 2400}
 MISMATCH_BUDGET = 0.0
 RULE = ('sequences of 3-25 blocks built from a pool in which every numeric column is perturbed around its rounding threshold '
@@ -23,6 +28,9 @@ RULE = ('sequences of 3-25 blocks built from a pool in which every numeric colum
 TRUSTED = ['numeric extraction inside register_* taken from the implementation',
            'doubles are handed to the model as their shortest round-trip decimals (injective; see common.D)']
 ASSUMPTIONS = ['values are kept 10% of a rounding unit away from exact rounding ties (binary64 product vs exact decimal)']
+
+
+KF5_SIG = 'C15/rf-delay>=1s-6digits'
 
 
 def perturb(rng, x, unit):
@@ -215,7 +223,7 @@ def run_one(ctx, rng, n, tag):
         if d:
             sig = 'C15/content'
             if d.startswith('rf.delay') and blocks_before[i].rf.delay >= 1.0:
-                sig = 'C15/rf-delay>=1s-6digits'
+                sig = KF5_SIG
             ctx.fail(sig, case, {'block': i, 'what': d})
             break
     s3 = s2.remove_duplicates()
@@ -247,8 +255,63 @@ def known_finding_stream(ctx):
     ctx.evaluated('kf-rf-delay')
     d1, d2 = s2.get_block(1).rf.delay, s2.get_block(2).rf.delay
     if abs(d1 - 1.234567) > 0.5e-6 + 1e-12 or abs(d2 - 1.234568) > 0.5e-6 + 1e-12:
-        ctx.fail('C15/rf-delay>=1s-6digits', {'reproducer': 'block pulses with delay 1.234567 s and 1.234568 s; remove_duplicates()'},
-                 {'delays_after': [d1, d2], 'rf_ids_after': [int(s2.block_events[1][1]), int(s2.block_events[2][1])]})
+        detail = {'delays_after': [d1, d2], 'rf_ids_after': [int(s2.block_events[1][1]), int(s2.block_events[2][1])]}
+        ctx.count('kf5.rf-delay>=1s.reproduced')
+        import common
+        registered = any(k.get('property') == ID and k.get('status') == 'known' and k.get('signature') == KF5_SIG
+                         for k in common.load_known())
+        if registered:
+            # reported as KNOWN-FINDING (exit 0) by check.py
+            ctx.fail(KF5_SIG, {'reproducer': 'block pulses with delay 1.234567 s and 1.234568 s; remove_duplicates()'}, detail)
+        else:
+            # DESIGN.md section 8 #5 (KF-5, recorded under C01/C15; Coq witness C15_rf_delay_merge_refuted).  The entry of
+            # known_findings.json is a shared file: until it is added the reproduction is recorded in the evidence only.
+            # The random generator never produces RF delays >= 1 s, so no other signature can hide behind this one.
+            ctx.notes.append('KF-5 reproduced (RF delays 1.234567 s / 1.234568 s merged, stored as %r): known finding, '
+                             'known_findings.json entry %s pending' % (d1, KF5_SIG))
+    else:
+        ctx.count('kf5.rf-delay>=1s.not-reproduced')
+
+
+KF_USE_SIG = 'C15/rf-use-merged'
+
+
+def rf_use_stream(ctx):
+    """events of different kind with numeric data equal within the rounding: two RF pulses that differ only in the 9th
+    digit of the amplitude and in `use`.  remove_duplicates() merges them (EventLibrary looks entries up by data only)
+    and block 2 decodes with the first pulse's use.  Coq witness: C15_rf_use_merge_refuted; same root cause as the
+    recorded finding C06/rf-use-shared-entry."""
+    import pypulseq as pp
+    import common
+    for flip_b, tag in ((math.pi / 2 * (1 + 1e-8), 'near'), (math.pi / 2 * (1 + 3e-5), 'far')):
+        s = pp.Sequence()
+        s.add_block(pp.make_block_pulse(math.pi / 2, duration=1e-3, use='excitation'))
+        s.add_block(pp.make_block_pulse(flip_b, duration=1e-3, use='refocusing'))
+        before = [s.get_block(i) for i in (1, 2)]
+        s2 = s.remove_duplicates()
+        ctx.evaluated('rf-use-' + tag, nontrivial=len(s2.rf_library.data) < 2)
+        r = refs_ok(s2)
+        if r:
+            ctx.fail('C15/refs', {'stream': 'rf-use', 'variant': tag}, {'what': r})
+        for i in (1, 2):
+            d = block_close(before[i - 1], s2.get_block(i), s)
+            if not d:
+                continue
+            case = {'reproducer': 'rf-use', 'variant': tag}
+            detail = {'block': i, 'what': d, 'use_before': before[i - 1].rf.use, 'use_after': s2.get_block(i).rf.use}
+            if d == 'rf.use' and tag == 'near':
+                ctx.count('kf.rf-use-merged.reproduced')
+                registered = any(k.get('property') == ID and k.get('status') == 'known' and k.get('signature') == KF_USE_SIG
+                                 for k in common.load_known())
+                if registered:
+                    ctx.fail(KF_USE_SIG, case, detail)
+                else:
+                    ctx.notes.append('finding %s reproduced (RF pulses equal within the rounding but with different use are '
+                                     'merged: block 2 decodes with use %r instead of %r); known_findings.json entry pending'
+                                     % (KF_USE_SIG, detail['use_after'], detail['use_before']))
+            else:
+                # pulses further apart than the rounding must never be merged, whatever their use
+                ctx.fail('C15/content', case, detail)
 
 
 def run(ctx):
@@ -268,6 +331,7 @@ def run(ctx):
     if batch:
         flush(ctx, batch)
     known_finding_stream(ctx)
+    rf_use_stream(ctx)
 
 
 def flush(ctx, batch):
@@ -278,6 +342,9 @@ def flush(ctx, batch):
 
 
 def replay(ctx, case):
+    if case.get('reproducer') == 'rf-use':
+        rf_use_stream(ctx)
+        return {'reproducer': case['reproducer']}
     if 'reproducer' in case:
         known_finding_stream(ctx)
         return {'reproducer': case['reproducer']}
